@@ -861,6 +861,80 @@ def response_cases(rng, tier):
     return cs
 
 
+# strictly proper stable transfer functions as partial fractions  sum r/(s + p)  (closed-form responses below use only math.exp)
+RESPW_H = [('1/(s + 1)', [(1.0, 1.0)]), ('2/(s + 3)', [(2.0, 3.0)]), ('(s + 3)/(s**2 + 3*s + 2)', [(2.0, 1.0), (-1.0, 2.0)])]
+# windows (t0, t1): the samples start at t0, the input is switched on at t1 >= t0 (a sample instant of both grids)
+RESPW_WIN = {'at0': [('0', '0'), ('0', '1')], 'before0': [('-1', '0'), ('-1', '-1'), ('-2', '-1/2')], 'after0': [('2', '2'), ('2', '5/2'), ('1/2', '1/2')]}
+RESPW_METHODS = ['bilinear', 'tustin', 'trapezoidal', 'gbf', 'generalized-bilinear', 'backward-euler', 'backward-diff',
+                 'forward-euler', 'forward-diff', 'euler', 'impulse-invariance', 'adhoc']
+RESPW_B = '1/2'       # decay rate of the exponential input (not a pole of any RESPW_H)
+
+
+def respw_ref(pf, inp, tau):
+    """exact response at time tau after the (delayed) onset of the input"""
+    if tau <= 0:
+        return 0.0
+    if inp == 'step':
+        return sum(r / p * (1 - math.exp(-p * tau)) for r, p in pf)
+    b = float(F(RESPW_B))
+    return sum(r * (math.exp(-b * tau) - math.exp(-p * tau)) / (p - b) for r, p in pf)
+
+
+def respw_text(hi, delay):
+    h = RESPW_H[hi][0]
+    d = F(delay)
+    if d == 0:
+        return h
+    return 'exp(-%s*s)*(%s)' % ('(%d/%d)' % (d.numerator, d.denominator) if d.denominator != 1 else str(d.numerator), h)
+
+
+def response_window_cases(rng, tier):
+    """response() on time windows that start at, before and after t = 0, with and without a delay factor, for every
+    discretisation method.  Step sizes are dyadic (T = 4, N - 1 a power of two) so that the time vectors are exact and the
+    delays 1/2, 1, 1/4 are whole numbers of steps (a fractional delay makes the bilinear family fall back on a Pade
+    approximation of exp, whose error does not depend on the step); impulse-invariance additionally gets a delay that
+    is NOT a multiple of the step (linear interpolation between samples)."""
+    cs = []
+    Ns = (129, 513)
+
+    def add(hi, method, win, t0, t1, delay, inp, wrap, **kw):
+        for N in Ns:
+            c = {'kind': 'response', 'H': respw_text(hi, delay), 'hw': hi, 'method': method, 'T': '4', 'N': N, 't0': t0, 't1': t1,
+                 'delay': delay, 'input': inp, 'b': RESPW_B, 'wrap': wrap,
+                 'id': 'response:window-%s:%s:%s' % (win, 'delay' if F(delay) != 0 else 'nodelay', method)}
+            c.update(kw)
+            c['gid'] = '%s#%d' % (c['id'], len(cs) // 2)
+            cs.append(c)
+    # always: both names of the impulse-invariance method, delayed, on windows before and after 0 (and at 0)
+    for method in ('impulse-invariance', 'adhoc'):
+        for win in ('before0', 'after0', 'at0'):
+            t0, t1 = rng.choice(RESPW_WIN[win])
+            add(rng.randrange(3), method, win, t0, t1, rng.choice(['1/2', '1', '1/4', '1/3']), rng.choice(['step', 'expstep']),
+                rng.choice([None, 'transfer']), interp=True)
+            if win != 'at0':
+                t0, t1 = rng.choice(RESPW_WIN[win])
+                add(rng.randrange(3), method, win, t0, t1, '0', rng.choice(['step', 'expstep']), rng.choice([None, 'transfer']), interp=True)
+    # every other method name: each of the three kinds of window, with and without delay
+    others = [m for m in RESPW_METHODS if m not in ('impulse-invariance', 'adhoc')]
+    if tier == 'quick':
+        others = ['bilinear', 'backward-euler', 'forward-euler', 'gbf'] + rng.sample([m for m in others if m not in ('bilinear', 'backward-euler', 'forward-euler', 'gbf')], 2)
+    for method in others:
+        for win in ('before0', 'after0', 'at0'):
+            for delay in (rng.choice(['1/2', '1', '1/4']), '0'):
+                if tier == 'quick' and win == 'at0' and delay == '0':
+                    continue            # covered by response_cases
+                t0, t1 = rng.choice(RESPW_WIN[win])
+                kw = {'alpha': rng.choice(['1/2', '3/4', '1'])} if method in ('gbf', 'generalized-bilinear') else {}
+                add(rng.randrange(3), method, win, t0, t1, delay, rng.choice(['step', 'expstep']), rng.choice([None, 'transfer']), **kw)
+    if tier != 'quick':
+        for method in ('impulse-invariance', 'adhoc'):
+            for win in ('before0', 'after0', 'at0'):
+                for t0, t1 in RESPW_WIN[win]:
+                    for delay in ('1/2', '1/3', '0'):
+                        add(rng.randrange(3), method, win, t0, t1, delay, rng.choice(['step', 'expstep']), rng.choice([None, 'transfer']), interp=True)
+    return cs
+
+
 def simstep_cases(rng, n):
     cs = []
     for cls in TS.CLASSES:
@@ -1043,7 +1117,7 @@ def run(tier='quick', replay=None):
         exact = expand_modes(nprobe + gen_exact_cases(rng, ngen))
         tcases = text_cases(rng, tier)
         scases = sim_cases(rng, tier)
-        rcases = response_cases(rng, tier)
+        rcases = response_cases(rng, tier) + response_window_cases(random.Random(core.seed() * 7919 + 1703), tier)
         stcases = simstep_cases(rng, 4 if tier == 'quick' else 20)
         srcases = simres_cases(rng, tier)
         misc = [{'kind': 'lambdify'}, {'kind': 'rmodel', 'cpt': 'C'}, {'kind': 'rmodel', 'cpt': 'L'}]
@@ -1493,6 +1567,8 @@ def run(tier='quick', replay=None):
                 add_cex('sim:no-convergence:' + cid, 'max error of %s vs the closed form does not shrink with the step: %.3g (N=%d) -> %.3g (N=%d)' % (
                     c2['probe'][0], e1, N1, e2, N2), c2, float_evidence=True)
         groups = {}
+        wgroups = {}
+        interp_runs = []
         for c, r in zip(rcases, rres):
             if 'timeout' in r:
                 res.count('impl_timeout')
@@ -1501,8 +1577,47 @@ def run(tier='quick', replay=None):
                 add_cex('response:error:' + c['id'], 'response() failed: ' + r['error'], c)
                 continue
             N = int(c['N'])
+            if 'hw' in c:
+                # window case: exact response of the partial fractions to the input switched on at t1, delayed by `delay`,
+                # at the instants the real run was given (r['tv'] are exact dyadic floats)
+                if len(r['y']) != N or len(r['tv']) != N:
+                    add_cex('response:wrong-length:' + c['id'], 'response() returned %d samples for %d instants' % (len(r['y']), N), c)
+                    continue
+                pf, sh = RESPW_H[c['hw']][1], float(F(c['t1'])) + float(F(c['delay']))
+                wgroups[(c['gid'], N)] = (c, r['y'], [respw_ref(pf, c['input'], t - sh) for t in r['tv']])
+                if c.get('interp'):
+                    interp_runs.append((c, r))
+                continue
             tv = [float(F(c['T'])) * i / (N - 1) for i in range(N)]
             groups[(c['id'], N)] = (c, r['y'], [RESP_H[c['hi']][1](t) for t in tv])
+        # windows starting at / before / after 0: the error against the exact response must be first order in the step:
+        # bounded by C dt on the fine grid and smaller on the fine grid than on the coarse one.  C = 4 (sum |r_i|) (1 + b) is
+        # four times the first-order constant of a one-sample shift of the response (|y'| <= sup|h| sup|x| <= sum |r_i|) plus the
+        # rectangle-rule defect of the convolution (sup|x'| int|h| <= b sum |r_i| / p_i <= b sum|r_i|); observed errors are
+        # below 1.1 (sum |r_i|) dt for every method.  A wrong time base gives an error that does not depend on dt at all.
+        for gid, lst in errs(wgroups).items():
+            if len(lst) < 2:
+                continue
+            (N1, e1, c1, y1, f1), (N2, e2, c2, y2, f2) = lst[0], lst[-1]
+            cid = c2['id']
+            conv[gid] = [e1, e2]
+            res.add_case('response|' + gid, True, None)
+            res.count('response_window_pairs')
+            h2 = float(F(c2['T'])) / (N2 - 1)
+            Cb = 4.0 * sum(abs(r_) for r_, _ in RESPW_H[c2['hw']][1]) * (1 + float(F(RESPW_B)))
+            shrinks = e2 <= 0.6 * e1 or e2 <= 1e-9
+            if (not shrinks and e2 > 1e-3) or e2 > Cb * h2:
+                t0_, dl_ = float(F(c2['t0'])), float(F(c2['delay']))
+                pf = RESPW_H[c2['hw']][1]
+                tv2 = [t0_ + h2 * i for i in range(N2)]
+                # diagnosis only: the output as it would be if the delayed signal were interpolated on a grid starting at 0
+                alt = max(abs(a - respw_ref(pf, c2['input'], t + t0_ - float(F(c2['t1'])) - dl_)) for a, t in zip(y2, tv2))
+                hint = ('; the result matches the exact response shifted by the start of the window t0 = %s to within %.3g (time base of the delayed '
+                        'output is not the caller\'s time vector)' % (c2['t0'], alt)) if alt <= Cb * h2 and t0_ != 0 else ''
+                add_cex('response:no-convergence:' + cid,
+                        '(%s).response(x, linspace(%s, %s + 4, N), method=%s%s) with x = %s switched on at t = %s: max error vs the exact response %.3g (N=%d) '
+                        '-> %.3g (N=%d), first-order bound %.3g%s' % (c2['H'], c2['t0'], c2['t0'], c2['method'], ', alpha=%s' % c2['alpha'] if 'alpha' in c2 else '',
+                                                                 c2['input'], c2['t1'], e1, N1, e2, N2, Cb * h2, hint), c2, float_evidence=True)
         for cid, lst in errs(groups).items():
             if len(lst) < 2:
                 continue
